@@ -65,10 +65,16 @@ def run(d: Path, tier: str = "quick") -> bool:
     assert not st, f"/repo not clean: {st}"
     r = sh(f"git apply {d / 'patch.diff'}", cwd=REPO)
     assert r.returncode == 0, r.stderr
+    ev = V / "evidence" / f"{pid}.json"
+    ev_saved = ev.read_text() if ev.exists() else None  # evidence committed must come from clean-tree runs
     try:
         r = sh(f"./check {pid} {tier}", cwd=V, env={"VERIF_SEED": os.environ.get("VERIF_SEED", "0")})
     finally:
         sh("git checkout -- . && git clean -fdq src tests tools", cwd=REPO)
+        if ev_saved is not None:
+            ev.write_text(ev_saved)
+        # generated Lean files were rewritten from the mutant: regenerate from the clean tree
+        sh(f"{PY} -m translator.all", cwd=V)
     viol = [ln for ln in r.stdout.splitlines() if ln.startswith("VIOLATION")]
     caught = r.returncode == 1 and bool(viol)
     tag = "CAUGHT" if caught else f"MISSED (exit {r.returncode})"
